@@ -23,10 +23,10 @@ import (
 
 // X is the per-execution context handed to a scenario body.
 type X struct {
-	Obs    []string          // observations made by the body (op results); part of the outcome digest
-	Vars   map[string]any    // scratch shared between body and oracle
+	Obs    []string           // observations made by the body (op results); part of the outcome digest
+	Vars   map[string]any     // scratch shared between body and oracle
 	Viol   []common.Violation // violations detected by the body itself
-	Param  int               // scenario parameter (e.g. cancel index)
+	Param  int                // scenario parameter (e.g. cancel index)
 	Param2 int
 }
 
@@ -63,23 +63,23 @@ type Job struct {
 
 // JobResult is what a worker reports.
 type JobResult struct {
-	Job          Job
-	Executions   int
-	Points       int64
-	Steps        int64
-	MaxPoints    int
-	Exhaustive   bool
-	CapHit       string
-	Outcomes     map[string]int
-	Interesting  int
-	Deadlocks    int
-	Leaks        int
-	Panics       int
-	Violations   []common.Violation
-	ViolCount    map[string]int
-	Samples      []map[string]any
-	Diverged     int
-	Err          string
+	Job            Job
+	Executions     int
+	Points         int64
+	Steps          int64
+	MaxPoints      int
+	Exhaustive     bool
+	CapHit         string
+	Outcomes       map[string]int
+	Interesting    int
+	Deadlocks      int
+	Leaks          int
+	Panics         int
+	Violations     []common.Violation
+	ViolCount      map[string]int
+	Samples        []map[string]any
+	Diverged       int
+	Err            string
 	BoundCompleted int
 }
 
@@ -251,11 +251,11 @@ func WorkerMain(scenarios map[string]*Scenario) {
 // Totals aggregates job results.
 type Totals struct {
 	Executions, Deadlocks, Leaks, Panics, Interesting, Diverged int
-	Points, Steps                                       int64
-	Outcomes                                            map[string]int
-	Exhaustive                                          bool
-	Caps                                                []string
-	PerScenario                                         map[string]map[string]any
+	Points, Steps                                               int64
+	Outcomes                                                    map[string]int
+	Exhaustive                                                  bool
+	Caps                                                        []string
+	PerScenario                                                 map[string]map[string]any
 }
 
 // RunAll distributes jobs over worker subprocesses (re-executions of this binary
@@ -346,6 +346,58 @@ func RunAll(rep *common.Report, jobs []Job, workerArgs []string, procs int) *Tot
 		wg.Wait()
 		close(resCh)
 	}()
+	// a violation is reported only if its recorded schedule reproduces it on a fresh worker process (decided once
+	// per key); one that does not is the trace of nondeterminism the harness does not own, never an alarm
+	verdictOf := map[string]bool{}
+	var unconfirmed []string
+	confirm := func(v common.Violation) bool {
+		if ok, done := verdictOf[v.Key]; done {
+			return ok
+		}
+		ok := true
+		w, isMap := v.Witness.(map[string]any)
+		if isMap && w["scenario"] != nil {
+			var choices []int
+			cb, _ := json.Marshal(w["choices"])
+			json.Unmarshal(cb, &choices)
+			param := 0
+			if f, isF := w["param"].(float64); isF {
+				param = int(f)
+			}
+			cmd := exec.Command(self, workerArgs...)
+			cmd.Stderr = &lineFilter{w: os.Stderr}
+			cmd.Env = append(os.Environ(), "GOMAXPROCS=1")
+			ip, e1 := cmd.StdinPipe()
+			op, e2 := cmd.StdoutPipe()
+			if e1 == nil && e2 == nil && cmd.Start() == nil {
+				jb := Job{Scenario: fmt.Sprint(w["scenario"]), Param: param, Choices: choices, Replay: true}
+				b, _ := json.Marshal(jb)
+				ip.Write(append(b, '\n'))
+				sc := bufio.NewScanner(op)
+				sc.Buffer(make([]byte, 1<<20), 1<<28)
+				if sc.Scan() {
+					var rr JobResult
+					if json.Unmarshal(sc.Bytes(), &rr) == nil && rr.Err == "" {
+						ok = false
+						for _, rv := range rr.Violations {
+							if rv.Key == v.Key {
+								ok = true
+							}
+						}
+					}
+				}
+				ip.Close()
+				cmd.Wait()
+			}
+		}
+		verdictOf[v.Key] = ok
+		if !ok {
+			unconfirmed = append(unconfirmed, v.Key)
+			fmt.Fprintf(os.Stderr, "sched: violation %s did not reproduce on a fresh worker: not reported; recorded as unconfirmed\n", v.Key)
+		}
+		return ok
+	}
+	defer func() { rep.Set("unconfirmed_violations", unconfirmed) }()
 	for r := range resCh {
 		if r.Err != "" {
 			fmt.Fprintf(os.Stderr, "job %+v failed: %s\n", r.Job, r.Err)
@@ -379,6 +431,9 @@ func RunAll(rep *common.Report, jobs []Job, workerArgs []string, procs int) *Tot
 			ps["outcomes"].(map[string]bool)[k] = true
 		}
 		for _, v := range r.Violations {
+			if !confirm(v) {
+				continue
+			}
 			for i := 0; i < r.ViolCount[v.Key]; i++ {
 				rep.Add(v)
 			}
